@@ -6,8 +6,50 @@ import os
 from typing import Any, Callable, List, Optional
 
 from . import aio
-from .core import Chooser, digest
+from .core import Chooser, Point, digest
 from .explore import ExecResult, V
+
+
+WATCHDOG_S = 20
+
+
+class NeverYields(BaseException):
+    pass
+
+
+class watchdog:
+    """Wall-clock guard for one execution: code that spins without yielding never reaches a boundary."""
+
+    def __init__(self, seconds: int) -> None:
+        self.seconds = seconds
+
+    def _fire(self, signum: int, frame: Any) -> None:
+        where = "?"
+        f = frame
+        while f is not None:
+            fn = f.f_code.co_filename
+            if "/hypercorn/" in fn:
+                where = f"{fn.rsplit('/hypercorn/', 1)[1]}:{f.f_code.co_name}"
+                break
+            f = f.f_back
+        raise NeverYields(where)
+
+    def __enter__(self) -> "watchdog":
+        import signal
+        import threading
+
+        self.active = threading.current_thread() is threading.main_thread()
+        if self.active:
+            self.old = signal.signal(signal.SIGALRM, self._fire)
+            signal.alarm(self.seconds)
+        return self
+
+    def __exit__(self, *a: Any) -> None:
+        import signal
+
+        if self.active:
+            signal.alarm(0)
+            signal.signal(signal.SIGALRM, self.old)
 
 
 def run_world(engine: str, scenario: dict, prefix: List[int]) -> Any:
@@ -126,7 +168,14 @@ def std_execute(build: Callable[[Any], tuple], oracle: Callable[[Any, Any], List
                 observe: Optional[Callable[[Any, Any], Any]] = None) -> Callable[[Any, List[int]], ExecResult]:
     def execute(params: Any, prefix: List[int]) -> ExecResult:
         engine, scenario = build(params)
-        w = run_world(engine, scenario, prefix)
+        try:
+            with watchdog(WATCHDOG_S):
+                w = run_world(engine, scenario, prefix)
+        except NeverYields as e:
+            # a task of the server spun without ever returning to the event loop
+            return ExecResult([Point(1, c, "replay") for c in prefix],
+                              [V("never-yields", str(e)[:80], f"execution exceeded {WATCHDOG_S}s of wall time inside one step")],
+                              "never-yields", True, (), {"params": repr(params)[:300], "choices": list(prefix)})
         viol = generic_violations(w) + oracle(w, params)
         obs = observe(w, params) if observe is not None else default_observation(w)
         choices = w.chooser.choices
